@@ -29,6 +29,7 @@ type Gen struct {
 	tags        map[string]int
 	tagTypes    []types.Type
 	funcs       map[string]*ssa.Function // contract name -> function
+	inlined     map[string]bool // schema-only functions verified as part of their callers (inline fallback)
 	trustedUsed map[string]bool
 	uses        map[string]map[string]bool // caller contract -> callee contracts used
 	keywordSet  []string
@@ -135,6 +136,9 @@ func (g *Gen) funcName(fn *ssa.Function) string {
 func (g *Gen) contractFor(fn *ssa.Function) *Contract {
 	if fn.Origin() != nil {
 		fn = fn.Origin()
+	}
+	if g.inlined[g.funcName(fn)] {
+		return nil // verified as part of its callers (see cmdCheck: inline fallback)
 	}
 	return g.cs.forFunc(g.funcName(fn))
 }
@@ -586,4 +590,111 @@ func appendUnique(xs []string, x string) []string {
 		}
 	}
 	return append(xs, x)
+}
+
+// inlinable: the body can be executed in place at a call site (see inlineStatic).
+func (g *Gen) inlinable(fn *ssa.Function) bool {
+	if fn == nil || len(fn.Blocks) == 0 {
+		return false
+	}
+	for _, b := range fn.Blocks {
+		for _, in := range b.Instrs {
+			switch x := in.(type) {
+			case *ssa.Defer, *ssa.Go, *ssa.Range, *ssa.Next, *ssa.Select:
+				return false
+			case ssa.CallInstruction:
+				if x.Common().StaticCallee() == fn {
+					return false
+				}
+			}
+		}
+		// a back edge means a loop
+		for _, succ := range b.Succs {
+			if succ.Dominates(b) {
+				return false
+			}
+		}
+	}
+	return true
+}
+
+// onlyCalledStatically: the function is never used as a value (method value passed to a list helper,
+// deferred closure): such uses need its contract.
+func (g *Gen) onlyCalledStatically(name string) bool {
+	fn := g.funcs[name]
+	if fn == nil {
+		return false
+	}
+	refs := fn.Referrers()
+	_ = refs
+	for _, sp := range g.spkgs {
+		for _, m := range sp.Members {
+			if !g.usesOnlyAsCallee(m, fn) {
+				return false
+			}
+		}
+	}
+	return true
+}
+
+func (g *Gen) usesOnlyAsCallee(m ssa.Member, target *ssa.Function) bool {
+	var fns []*ssa.Function
+	switch x := m.(type) {
+	case *ssa.Function:
+		fns = append(fns, x)
+	case *ssa.Type:
+		for _, t := range []types.Type{x.Type(), types.NewPointer(x.Type())} {
+			ms := g.prog.MethodSets.MethodSet(t)
+			for i := 0; i < ms.Len(); i++ {
+				if f := g.prog.MethodValue(ms.At(i)); f != nil {
+					fns = append(fns, f)
+				}
+			}
+		}
+	}
+	seen := map[*ssa.Function]bool{}
+	var walk func(f *ssa.Function) bool
+	walk = func(f *ssa.Function) bool {
+		if f == nil || seen[f] {
+			return true
+		}
+		seen[f] = true
+		for _, b := range f.Blocks {
+			for _, in := range b.Instrs {
+				for _, op := range in.Operands(nil) {
+					if op == nil || *op == nil {
+						continue
+					}
+					switch v := (*op).(type) {
+					case *ssa.Function:
+						if v == target {
+							// fine only as the callee of a call instruction
+							ci, isCall := in.(ssa.CallInstruction)
+							if !isCall || ci.Common().Value != ssa.Value(v) {
+								return false
+							}
+						}
+					case *ssa.MakeClosure:
+						if fn2, ok := v.Fn.(*ssa.Function); ok {
+							if fn2 == target || (fn2.Synthetic != "" && fn2.Object() == target.Object()) {
+								return false
+							}
+						}
+					}
+				}
+			}
+		}
+		for _, af := range f.AnonFuncs {
+			if !walk(af) {
+				return false
+			}
+		}
+		return true
+	}
+	for _, f := range fns {
+		if !walk(f) {
+			return false
+		}
+	}
+	return true
 }
